@@ -581,3 +581,51 @@ def r10_widen_before_arithmetic(ck, P, rid='C13-R10'):
                     ck.violation(R, fn, '32-bit %s widened at %s' % (y.op, x.loc()), '%s computes a %s of transform/vector coordinates in 32 bits and only then extends the result to 64 bits: for source positions beyond +-16384 pixels the intermediate wraps, so the value handed to the 64-bit computation (and every pixel derived from it incrementally) is wrong although the first pixel of the scanline is still right' % (fn, {'add': 'sum', 'sub': 'difference', 'mul': 'product', 'shl': 'shift'}[y.op]), x.loc())
                 else:
                     ck.ok(R, '%s/%s %s: coordinate widened before use' % (un, fn, x.loc()))
+
+
+def r11_walker_segment_test_siblings(ck, P):
+    """sibling agreement: the narrow and the wide pixel function of the gradient walker decide with the same comparisons whether the
+    cached segment [left_x, right_x) still contains x."""
+    R = ck.rule('C13-R11', 'every function that re-seats the gradient walker (calls its reset routine) tests the cached segment with the same comparisons of x against left_x and right_x: the segment is half-open, x == right_x belongs to the next one, in the 32-bit and in the float pipeline alike', floor=2)
+    u = P.units.get('pixman-gradient-walker.c')
+    if u is None:
+        ck.incomplete(R, 'pixman-gradient-walker.c not compiled'); return
+    resets = [g for g in u.functions.values() if any(f2 is not g and any(c.callee == g.name for c in f2.calls()) for f2 in u.functions.values()) and any(x.op == 'store' and (g.last_field(g.path(x.a[1])) or '').endswith('.left_x') for x in g.insts())]
+    if len(resets) != 1:
+        ck.incomplete(R, 'walker reset role matched %s' % [g.name for g in resets]); return
+    reset = resets[0]
+    SW = {'slt': 'sgt', 'sgt': 'slt', 'sle': 'sge', 'sge': 'sle', 'eq': 'eq', 'ne': 'ne'}
+    sigs = {}
+    for fn, f in sorted(u.functions.items()):
+        if not any(c.callee == reset.name for c in f.calls()):
+            continue
+        ck.saw(f)
+        sig = set()
+        for x in f.insts():
+            if x.op != 'icmp' or x.d['p'] not in SW:
+                continue
+            fld = [None, None]
+            for i, o in enumerate(x.a):
+                y = f.v(o)
+                while y is not None and y.op in ('sext', 'zext', 'trunc'):
+                    y = f.v(y.a[0])
+                if y is not None and y.op == 'load':
+                    lf = f.last_field(f.path(y.a[0])) or ''
+                    if lf.endswith('.left_x') or lf.endswith('.right_x'):
+                        fld[i] = lf.split('.')[-1]
+            if fld[0] and not fld[1]:
+                sig.add((fld[0], SW[x.d['p']], x.loc()))       # normalise to: x <pred> field
+            elif fld[1] and not fld[0]:
+                sig.add((fld[1], x.d['p'], x.loc()))
+        sigs[fn] = sig
+    if len(sigs) < 2:
+        ck.incomplete(R, 'fewer than two functions re-seat the walker'); return
+    ref_fn = sorted(sigs)[0]; ref = {(a, b) for a, b, _ in sigs[ref_fn]}
+    for fn, sig in sorted(sigs.items()):
+        cur = {(a, b) for a, b, _ in sig}
+        if cur == ref:
+            ck.ok(R, '%s: x %s' % (fn, ', '.join('%s %s' % (b, a) for a, b in sorted(cur))))
+        else:
+            d = sorted(cur ^ ref)
+            loc = next((l for a, b, l in sig if (a, b) in cur - ref), None) or next(iter(f.insts())).loc()
+            ck.violation(R, fn, 'segment test', '%s tests the cached walker segment with {%s} while %s uses {%s}: for x exactly on a stop the two pipelines evaluate different segments (the half-open segment [left_x, right_x) excludes right_x), so the wide and the narrow rendering of the same gradient differ by a whole stop colour at hard edges' % (fn, ', '.join('x %s %s' % (b, a) for a, b in sorted(cur)), ref_fn, ', '.join('x %s %s' % (b, a) for a, b in sorted(ref))), loc)
